@@ -6,7 +6,9 @@ ids=[p['id'] for p in props]
 TECH="symbolic execution of go/ssa to SMT-LIB2; z3 verdict (unsat) per path and assertion; counterexamples replayed natively"
 NOTE="trusted: go/ssa construction, the executor's instruction semantics (sampled path models are replayed natively on every run), z3 5.1.0; stubs and bounds as listed in the evidence file"
 checks={
- "C03":("bounded symbolic model checking of the window kernel (checkEffective, util.OnOrAfter, time.Time methods from stdlib source) against an independent oracle for all instants under P1","DESIGN.md §8 C03"),
+ "C01":("zlint.Lint*Ex, ResultSet.execute*, updateErrorStatePresent and the three Execute wrappers (defer/recover included) executed symbolically over registries of stub lints (built through the real registration code) whose applicability, panic and verdict are symbolic, on an arbitrary object; completeness, keys, metadata, status range, the four flags and the version asserted; escaping panics are findings","DESIGN.md §8 C01"),
+ "C03":("bounded symbolic model checking of the window kernel (checkEffective, util.OnOrAfter, time.Time methods from stdlib source) against an independent oracle for all instants under P1; placement of the window test in the three Execute wrappers (stub lint with arbitrary dates; the judged instant is NotBefore / ThisUpdate / NextUpdate; the body is not run outside the window)","DESIGN.md §8 C03"),
+ "C04":("the three Execute wrappers under Lint*Ex with a call-logging stub lint of arbitrary source, window dates, applicability and body outcome: scope gate, NA/NE short cuts, call order, single fresh instance and identity of the returned result asserted on every path; the three scope predicates compared with an arc-wise oracle on an arbitrary certificate","DESIGN.md §8 C04"),
  "C08":("Registry.Filter, lintNamesToMap, sourceListToMap, Empty and the three register functions executed symbolically on registries built through the real registration code; FilterOptions symbolic (arbitrary strings in the name lists, arbitrary source lists, an arbitrary pattern); result compared with the five-clause oracle, plus unchanged source registry (write monitor), kind/pointer identity and inherited configuration","DESIGN.md §8 C08"),
  "C12":("the three register functions executed symbolically on bounded registration histories (arbitrary names; a four-name pool covering all order types) with the lookup invariant asserted; the real registry is built by executing every package init from SSA and inspected entry by entry; census of Register*Lint call instructions vs registered lints; import-closure side condition","DESIGN.md §8 C12"),
  "C13":("LintSource.FromString/UnmarshalJSON/SourceList.FromString executed symbolically on an unbounded symbolic string; accepted set == declared constants (read from the SSA package)","DESIGN.md §8 C13"),
